@@ -65,10 +65,11 @@ RoundTripExt(t) == \A r \in 1..2 : ExtUnwrap(ExtWrap(t, r)) = r
 BundleOrder(ts) == BundleUnwrap(BundleOf([j \in 1..Len(ts) |-> [t |-> ts[j], r |-> j]])) = [j \in 1..Len(ts) |-> j]
 
 (* ---------------------------------------------------------------------- *)
-(* Extraction.  A tree node is [n, jn, ty, k, pn, li, cx, hp, h, ch]: FHIRPath *)
+(* Extraction.  A tree node is [n, jn, ty, k, pn, li, cx, hp, h, v, ch]: FHIRPath *)
 (* name, JSON name, FHIR type, kind, proto message name, list element,     *)
 (* reached through a choice, "a message of its own exists in the resource  *)
-(* under test", content hash, children in document order.  An address is   *)
+(* under test", content hash, primitive value, children in document order. *)
+(* An address is                                                           *)
 (* the sequence of child positions from the root.                          *)
 RECURSIVE ValidAddr(_, _)
 ValidAddr(node, addr) == addr = <<>> \/ (Head(addr) \in 1..Len(node.ch) /\ ValidAddr(node.ch[Head(addr)], Tail(addr)))
